@@ -181,3 +181,19 @@ Definition sio_okb (c : circuit) (sio : list (string * string)) : bool :=
   forallb (λ kv, bool_decide (kv.1 ∈ outputs c) && bool_decide (kv.2 ∈ inputs c)) sio &&
   bool_decide (NoDup sio.*1) && bool_decide (NoDup sio.*2).
 Definition free_are_inputs (c : circuit) : Prop := free_nodes c = inputs c.
+
+(* ---- cycle-accurate semantics of a circuit whose state is held in flip-flop blackboxes ----
+   The combinational part is the graph itself: bb_output pins (the Q pins among them) are free nodes, bb_input pins are
+   buffers of their driver.  State = values of the Q pins; the next state of flop b is the value at its D pin.  This is `run`
+   on the flop circuit's own graph with the pairs (D pin of b -> Q pin of b). *)
+Definition flop_pairs (C : Circuit) (d q : string) : list (string * string) :=
+  (λ b, (pin b d, pin b q)) <$> elements (dom (c_bbs C)).
+Definition flop_run (C : Circuit) (d q : string) (t : nat) (st : val) (ins : nat → val) : val :=
+  run (c_g C) (flop_pairs C d q) t st ins.
+(* the same, relationally, over ALL free nodes of the graph (inputs, blackbox outputs, x constants) *)
+Fixpoint is_runF (c : circuit) (sio : list (string * string)) (st : val) (ins : nat → val) (t : nat) (x : val) : Prop :=
+  consistent c x ∧
+  match t with
+  | O => agrees (free_nodes c) x (step_in sio None st (ins 0))
+  | S j => ∃ x', is_runF c sio st ins j x' ∧ agrees (free_nodes c) x (step_in sio (Some x') st (ins t))
+  end.
